@@ -249,6 +249,47 @@ pub fn exec_agree(c: &AgreeCase, st: &mut Stats) -> Vec<Viol> {
             }
         }
     };
+    // the character span carried by an error's location (untyped target; string, slice, reader)
+    if let Some(text) = c.doc.as_str() {
+        let key = |e: &serde_saphyr::Error| -> String {
+            let i = lab::err_info(e);
+            match e.location() {
+                Some(l) if !i.kind.starts_with("Validat") => format!("{}@{}", i.kind, loc(&l)),
+                _ => i.kind,
+            }
+        };
+        if let Ok(Err(e0)) = guard(|| serde_saphyr::from_str_with_options::<serde_json::Value>(text, c.opts.to_options())) {
+            let want = key(&e0);
+            st.bump("error_spans_compared");
+            let mut others: Vec<(String, Option<Chunking>, Option<String>)> = Vec::new();
+            if let Ok(r) = guard(|| serde_saphyr::from_slice_with_options::<serde_json::Value>(text.as_bytes(), c.opts.to_options())) {
+                others.push(("from_slice".into(), None, r.err().map(|e| key(&e))));
+            }
+            for ch in scheds.iter().take(3) {
+                let rd = SimReader::new(
+                    text.as_bytes(),
+                    ReaderScript {
+                        chunking: Some(ch.clone()),
+                        ..Default::default()
+                    },
+                );
+                if let Ok(r) = guard(|| serde_saphyr::from_reader_with_options::<_, serde_json::Value>(rd, c.opts.to_options())) {
+                    others.push((format!("from_reader under {}", describe(ch)), Some(ch.clone()), r.err().map(|e| key(&e))));
+                }
+            }
+            st.evals += others.len() as u64;
+            for (name, ch, got) in others {
+                // (a different kind or position is the main comparison's business; here: same error, other span)
+                if let Some(g) = got
+                    && g != want
+                    && g.split('+').next() == want.split('+').next()
+                {
+                    out.push(mk("error-span-disagrees", format!("{name} reports {g}, from_str reports {want}"), ch));
+                    break;
+                }
+            }
+        }
+    }
     // node locations of Spanned targets (a few shapes; the first schedules of the case)
     if let Some(text) = c.doc.as_str() {
         let few: Vec<Chunking> = scheds.iter().take(12).cloned().collect();
